@@ -13,7 +13,7 @@ import os
 
 from ..facts import AnalysisBroken, short
 from ..paths import path, pstr, root_var_id, last_field
-from ..moves import MoveAnalysis
+from ..moves import MoveAnalysis, vtag
 from ..locks import ScopeInfo, mutex_name
 from .. import witness, extract
 from .. import formula as F
@@ -39,6 +39,7 @@ def in_funnel(f):
 
 def check(ctx):
     ctx.rule('C04.M', 'no use-after-move in the dispatch funnel')
+    ctx.rule('C04.D', 'the default getEvent policy does not consume its arguments')
     ctx.rule('C04.F', 'listener lists are invoked only through directDispatch with the looked-up list and the own arguments in order')
     ctx.rule('C04.W', 'policy selection witnesses (static_assert / compile-fail)')
     for tu in ctx.tus:
@@ -48,11 +49,20 @@ def check(ctx):
                 continue
             vs, pairs = ma.violations(f)
             # every funnel function is an instance, also those without consuming sites (nothing to move)
-            names = sorted({v['site']['name'] + ' ' + v['kind'] for v in vs})
+            names = sorted({vtag(v) for v in vs})
             ctx.ob('C04.M', f, 'arguments are never read after (or unsequenced with) being moved from', not vs,
                    detail='\n'.join(v['msg'] for v in vs[:3]), key_detail='move ' + ','.join(names),
                    where=f.nloc(vs[0]['site']['consumer']) if vs else None)
+        # the default getEvent policy receives the caller's first argument by forwarding reference *before* the listeners do: it has
+        # to yield a copy and leave the argument alone (the heterogeneous dispatcher forwards the same object to the listeners next)
+        for f in tu.fns:
+            if f.skey.startswith('DefaultGetEvent::getEvent'):
+                sites = ma.consuming_sites(f)
+                ctx.ob('C04.D', f, 'the default getEvent yields the event without moving from any of its arguments', not sites,
+                       detail='\n'.join('%s is consumed at %s (%s)' % (x['name'], f.nloc(x['consumer']), x['how']) for x in sites[:3]),
+                       key_detail='default getEvent consumes')
         check_funnel(ctx, tu)
+    ctx.require_min('C04.D', 1)
     ctx.require_min('C04.M', 5)
     ctx.require_min('C04.F', 8)
     witness.check_static_unit(ctx, 'C04.W', os.path.join(extract.VERIF, 'witness', 's_select.cpp'), 'policy selection')
